@@ -194,6 +194,7 @@ func init() {
 		Runs: func(tier string) []runSpec {
 			return []runSpec{
 				{Workload: "C20", Flavour: "plain", Shards: 16, TimeoutS: tq(tier, 600, 3600)},
+				{Workload: "C20", Flavour: "vec", Shards: 16, TimeoutS: tq(tier, 600, 3600)},
 				{Workload: "C20c", Flavour: "race", Shards: 16, TimeoutS: tq(tier, 900, 3600)},
 			}
 		},
@@ -273,7 +274,7 @@ func init() {
 		Rule:        "for each scenario (build of a batch with vector fields; merge of 2-3 such segments with deletions; every 6th with >= 1000 vectors so that the clustered-index operations run): engine calls are counted per operation in a fault-free run, then for every operation in {IndexFactory, SetDirectMap, Train, AddWithIDs, WriteIndexIntoBuffer, ReadIndexFromBuffer, ReconstructBatch} and every n up to its count the n-th call is made to fail; oracle: New/Merge returns an error (a failed merge leaves no file); if no error is returned the segment must pass C14's oracle in full; engine monitor afterwards: no native index alive, no misuse; distinct = scenario fingerprint; every scenario is non-trivial (>= 3 fault points)",
 		Assumptions: vecAssumptions,
 		Runs:        vecRuns("C19", 16),
-		Min: mins(map[string]int64{"c19_fault_points_build": 30, "c19_fault_points_merge": 60, "c19_fault_points_op_Train": 2, "c19_fault_points_op_ReconstructBatch": 10},
+		Min: mins(map[string]int64{"c19_fault_points_build": 30, "c19_fault_points_merge": 60, "c19_fault_points_op_Train": 1, "c19_fault_points_op_ReconstructBatch": 10},
 			map[string]int64{"c19_fault_points_build": 300, "c19_fault_points_merge": 600, "c19_fault_points_op_Train": 20, "c19_fault_points_op_ReconstructBatch": 100}),
 	}
 }
